@@ -392,6 +392,7 @@ type recScanner struct {
 
 	mu       sync.Mutex
 	calls    map[uint32]int
+	calls64  map[uint64]int // keyed by address<<16|port
 	outcome  map[uint32]int
 	errs     map[uint32]error
 	startSeq []int64
@@ -401,7 +402,7 @@ type recScanner struct {
 
 func newRecScanner(seed uint64, posPermille, errPermille int, maxLatency time.Duration, clock *rigClock) *recScanner {
 	return &recScanner{seed: seed, posPermille: posPermille, errPermille: errPermille, maxLatency: maxLatency, clock: clock,
-		calls: map[uint32]int{}, outcome: map[uint32]int{}, errs: map[uint32]error{}}
+		calls: map[uint32]int{}, calls64: map[uint64]int{}, outcome: map[uint32]int{}, errs: map[uint32]error{}}
 }
 
 func (s *recScanner) decide(id uint32) int {
@@ -431,6 +432,7 @@ func (s *recScanner) Scan(ctx context.Context, r *scan.Request) (scan.Result, er
 	now := time.Now()
 	s.mu.Lock()
 	s.calls[id]++
+	s.calls64[uint64(id)<<16|uint64(r.DstPort)]++
 	s.startSeq = append(s.startSeq, s.clock.tick())
 	s.startT = append(s.startT, now)
 	s.mu.Unlock()
